@@ -105,3 +105,43 @@ pub open spec fn other_entries_untouched(a: Map<PKey, Seq<u8>>, b: Map<PKey, Seq
     &&& forall|q: Key| q != k ==> (#[trigger] b.dom().contains(PKey::Entry(q))) == a.dom().contains(PKey::Entry(q))
     &&& forall|q: Key| q != k && a.dom().contains(PKey::Entry(q)) ==> #[trigger] b[PKey::Entry(q)] == a[PKey::Entry(q)]
 }
+
+// ---- listing: the per-entry closure of list_with_size (which directory entries are reported, with which size) ----
+pub struct NameL { pub id: Ghost<int> }
+// the id a file name stands for (64 hex digits), None for every other name (temporary "<hex>-tmp-" names, foreign files):
+// Id::parse_some / FromStr for Id -- uninterpreted
+pub uninterp spec fn NAME_ID(name: NameL) -> Option<Id>;
+impl Id {
+    #[verifier::external_body]
+    pub fn parse_some(name: &NameL, tpe: FileType) -> (r: Option<Id>) ensures r == NAME_ID(*name), { unimplemented!() }
+}
+pub struct MetaL { pub len: u64 }
+pub struct WalkErr { pub _opaque: u64 }
+pub struct FileTypeL { pub file: bool }
+impl FileTypeL {
+    pub fn is_file(&self) -> (r: bool) ensures r == self.file, { self.file }
+}
+// a directory entry as the walk yields it: regular file or not, its name, its length if its metadata can be queried
+pub struct DirEntryL { pub is_file: bool, pub name: NameL, pub len: Ghost<u64>, pub meta_ok: Ghost<bool> }
+impl DirEntryL {
+    #[verifier::external_body]
+    pub fn file_type(&self) -> (r: FileTypeL) ensures r.file == self.is_file, { unimplemented!() }
+    // entry.file_name().to_string_lossy()
+    #[verifier::external_body]
+    pub fn vfile_name(&self) -> (r: NameL) ensures r == self.name, { unimplemented!() }
+    #[verifier::external_body]
+    pub fn metadata(&self) -> (r: Result<MetaL, WalkErr>)
+        ensures r is Ok <==> self.meta_ok@, r matches Ok(m) ==> m.len == self.len@,
+    { unimplemented!() }
+}
+// r.inspect_err(log).ok()
+pub fn vok_entry(r: Result<DirEntryL, WalkErr>) -> (o: Option<DirEntryL>)
+    ensures o == (match r { Ok(e) => Some(e), Err(_) => None::<DirEntryL> }),
+{ match r { Ok(e) => Some(e), Err(_) => None } }
+// the nested helper `length` of list_with_size (metadata or error -> length as u32; closures that only log): ELIDED.
+// Some(l) iff the metadata could be queried and the length fits u32, and then l is that length
+#[verifier::external_body]
+pub fn length(meta: Result<MetaL, WalkErr>, file_name: &NameL, tpe: FileType) -> (r: Option<u32>)
+    ensures r matches Some(l) ==> meta is Ok && meta->Ok_0.len == l,
+            r is Some <==> (meta is Ok && meta->Ok_0.len <= u32::MAX),
+{ unimplemented!() }
